@@ -11,6 +11,21 @@ def clause_tables(rep):
     have = set(sql.Where.M_CLOSE[1]) if isinstance(sql.Where.M_CLOSE[1], tuple) else {sql.Where.M_CLOSE[1]}
     common.structural(rep, 'C13/sqlparse.sql.Where.M_CLOSE/contains every closing keyword the property lists', 'sqlparse.sql.Where',
                       sql.Where.M_CLOSE[0] is T.Keyword and need <= have, {'missing': sorted(need - have)})
+    # the lexer may emit a closing keyword together with a following word as ONE keyword token (UNION ALL): every such
+    # phrase (finite phrase sets of the rules of the default lexer table, read off CPython's parse tree of each rule) must
+    # be listed as well, otherwise the Where node runs past the clause the property says it ends at
+    from pyvc import regexfacts
+    first_words = {w.split(' ')[0] for w in need}
+    missing = []
+    for rx, action in common.default_lexer_rules():
+        ph = regexfacts.phrases(rx) if rx is not None else None
+        if not ph or not (isinstance(action, T._TokenType) and action in T.Keyword):
+            continue
+        for p_ in sorted(ph):
+            if ' ' in p_ and p_.split(' ')[0] in first_words and p_ not in have:
+                missing.append((rx, p_))
+    common.structural(rep, 'C13/sqlparse.sql.Where.M_CLOSE/lists every multi-word keyword token that starts with a closing '
+                      'keyword of the property', 'sqlparse.sql.Where', not missing, {'missing': missing})
     common.structural(rep, 'C13/sqlparse.sql.Where.M_CLOSE/constants are upper-case with single blanks (compared with the collapsed normalized value)',
                       'sqlparse.sql.Where', all(w == ' '.join(w.upper().split()) for w in have), {'have': sorted(have)})
     common.structural(rep, 'C13/sqlparse.sql.TypedLiteral/M_EXTEND lists the interval units', 'sqlparse.sql.TypedLiteral',
